@@ -138,6 +138,8 @@ class LineProfilerMagics(Magics):
         finally:
             if had_profile:
                 builtins.__dict__["profile"] = old_profile
+            else:
+                builtins.__dict__.pop("profile", None)
 
         # Trap text output.
         stdout_trap = StringIO()
